@@ -165,11 +165,11 @@ def coq_makefile():
     return files
 
 
-def coq_make(targets, timeout=1500):
+def coq_make(targets, timeout=1500, keep_going=False):
     """make the given .vo targets (all when None).  Returns (ok, log, cmd)."""
     with CoqLock():
         coq_makefile()
-        cmd = ['timeout', str(timeout), 'make', '-j%d' % NCPU]
+        cmd = ['timeout', str(timeout), 'make', '-j%d' % NCPU] + (['-k'] if keep_going else [])
         if targets:
             cmd += list(targets)
         p = subprocess.run(cmd, cwd=COQ, stdout=subprocess.PIPE,
@@ -197,7 +197,7 @@ def props_statements(prop_file):
         txt, flags=re.M)
 
 
-def check_props(pid):
+def check_props(pid, extra_targets=None):
     """Recompile Props/<pid>.v (after its dependencies) and collect
     obligations, the assumptions printed by `Print Assumptions`, and the
     result of the forbidden-vernacular scan.  Returns a dict."""
@@ -207,9 +207,13 @@ def check_props(pid):
     names = props_statements(prop_v)
     res['statements'] = names
     res['obligations'] = len(names)
-    ok, log, cmd = coq_make(['Props/%s.vo' % pid])
+    # bring every compiled file in line with the regenerated sources first
+    # (-k: a broken proof elsewhere must not stop unrelated files), then ask
+    # for this property's theorems and whatever its case files import
+    coq_make(None, keep_going=True)
+    ok, log, cmd = coq_make(['Props/%s.vo' % pid] + list(extra_targets or []))
     res['checker_cmd'] = cmd
-    res['log'] = log[-6000:]
+    res['log'] = err_excerpt(log)
     if ok:
         # Print Assumptions output is only produced when the file is
         # compiled; compile it again on its own to collect it.
@@ -218,7 +222,7 @@ def check_props(pid):
         res['checker_cmd'] += ' ; coqc -Q %s PG %s' % (COQ, prop_v)
         if not ok2:
             ok = False
-            res['log'] = out[-6000:]
+            res['log'] = err_excerpt(out)
         else:
             res['axioms'] = parse_assumptions(out)
             res['closed'] = out.count('Closed under the global context')
@@ -229,6 +233,14 @@ def check_props(pid):
         res['ok'] = False
         res['discharged'] = 0
     return res
+
+
+def err_excerpt(log):
+    i = log.find('Error')
+    if i < 0:
+        return log[-1500:]
+    j = log.rfind('File "', 0, i)
+    return log[max(j, i - 300):i + 1200]
 
 
 def parse_assumptions(out):
